@@ -144,16 +144,6 @@ def rule_atom(ctx: Ctx) -> RuleResult:
         problems = []
         body_ids: Set[int] = set()
         handle = None
-        # ENC-1: text written with an explicit encoding (otherwise the locale decides and a non-ASCII module fails
-        # with UnicodeEncodeError after the file was truncated)
-        is_text = (kind == "open" and mode is not None and "b" not in mode) or mode == "write_text"
-        if is_text:
-            has_enc = any(k.arg == "encoding" for k in call.keywords) or (
-                kind == "open" and len(call.args) >= (4 if norm(call.func) in ("open", "io.open") else 3)) or (
-                mode == "write_text" and len(call.args) >= 2)
-            if not has_enc:
-                problems.append("text is written without an explicit encoding: under a non-UTF-8 locale a non-ASCII "
-                                "module raises UnicodeEncodeError after the existing file was truncated")
         if kind != "open":
             cfg = ctx.cfg(f)
             dom = cfg.dominators()
@@ -552,4 +542,29 @@ def rule_load1(ctx: Ctx) -> RuleResult:
             else:
                 rr.ob(f.relpath, f.qualname, f"{name}({p})", st, DISCHARGED,
                       f"`{norm(opens[0])}` dominates every data return", f.node.lineno)
+    return rr
+
+
+def rule_enc1(ctx: Ctx) -> RuleResult:
+    """Text is written to the output file with an explicit encoding (the locale must not decide)."""
+    rr = RuleResult("ENC-1", "the output file is written with an explicit text encoding", floor=1)
+    for f, call, kind, mode in file_mutations(ctx, ctx.cli_cone):
+        if kind == "open" and not _is_write_mode(mode):
+            continue
+        is_text = (kind == "open" and (mode is None or "b" not in mode)) or mode == "write_text"
+        if not is_text:
+            continue
+        rr.instances += 1
+        has_enc = any(k.arg == "encoding" for k in call.keywords) or (
+            kind == "open" and len(call.args) >= (4 if norm(call.func) in ("open", "io.open") else 3)) or (
+            mode == "write_text" and len(call.args) >= 2)
+        rr.ob(f.relpath, f.qualname, norm(call)[:80],
+              "generated text (which may contain any non-ASCII key or literal) is encoded the same way whatever the "
+              "locale, so -o stores exactly what would be printed and a successful generation cannot fail at the write",
+              DISCHARGED if has_enc else VIOLATED,
+              "explicit encoding" if has_enc else
+              "no encoding given: under a non-UTF-8 locale the write raises UnicodeEncodeError after the existing file "
+              "was truncated", call.lineno)
+    if rr.instances == 0:
+        raise AnalysisError("ENC-1: no text write found on CLI paths")
     return rr
